@@ -206,7 +206,8 @@ V_C05(S, e, T, aux) ==
         IN IF e.res.ok
            THEN LET fc == FreeCollateral(T, v, t)
                 IN Tag(~fc.ok \/ fc.val >= 0, "C05.freecoll")
-                   \cup Tag(T.bal[t] = S.bal[t] + a, "C05.wallet")
+                   \* (coins the sender chose to attach to the call are not part of what the wallet "receives")
+                   \cup Tag(T.bal[t] = S.bal[t] + a - e.tx.funds, "C05.wallet")
                    \cup Tag(PosOf(T, v, t).margin = p.margin - a - f, "C05.margin")
            ELSE {}
    ELSE {})
@@ -338,33 +339,54 @@ A_C08(S, e, T, aux) ==
   ELSE {}
 
 (* C09 -- privileged operations restricted to their role *)
-Roles(S, e) ==
+\* Who holds a role is NOT read from the contracts' stored configuration (the very thing a defect may
+\* corrupt) but from a ghost: the role map the deployment's own messages established (W.given, an input
+\* recorded by the harness) updated by every successful role-transfer message since (RolesNext).
+Roles(aux, S, e) ==
   LET c == e.tx.c
       m == e.tx.m
+      r == aux.roles
   IN IF IsVammName(c) /\ c \in Vs(S)
-     THEN CASE m \in {"swap_input", "swap_output", "settle_funding"} -> {S.vamm[c].cfg.engine}
-            [] m \in {"update_config", "update_owner"} -> {S.vamm[c].owner}
-            [] m = "set_open" -> {S.vamm[c].owner, S.vamm[c].cfg.ifund}
+     THEN CASE m \in {"swap_input", "swap_output", "settle_funding"} -> {r.vamm[c].engine}
+            [] m \in {"update_config", "update_owner"} -> {r.vamm[c].owner}
+            [] m = "set_open" -> {r.vamm[c].owner, r.vamm[c].ifund} \ {""}
             [] OTHER -> {}
      ELSE IF c = "engine"
-     THEN CASE m = "update_config" -> {S.eng.cfg.owner}
-            [] m \in {"set_pause", "update_pauser", "add_whitelist", "remove_whitelist"} -> {S.eng.pauser}
+     THEN CASE m = "update_config" -> {r.engine.owner}
+            [] m \in {"set_pause", "update_pauser", "add_whitelist", "remove_whitelist"} -> {r.engine.pauser}
             [] OTHER -> {"*"}
      ELSE IF c = "ifund"
-     THEN CASE m = "withdraw" -> {S.ifund.engine}
-            [] m \in {"add_vamm", "remove_vamm", "update_owner"} -> {S.ifund.owner}
-            [] m = "shutdown_vamms" -> {S.ifund.owner, "ifund"}
+     THEN CASE m = "withdraw" -> {r.ifund.engine}
+            [] m \in {"add_vamm", "remove_vamm", "update_owner"} -> {r.ifund.owner}
+            [] m = "shutdown_vamms" -> {r.ifund.owner, "ifund"}
             [] OTHER -> {}
-     ELSE IF c = "fpool" THEN {S.fpool.owner}
-     ELSE IF c = "feed" /\ S.feed.kind = "real" THEN {S.feed.owner}
+     ELSE IF c = "fpool" THEN {r.fpool.owner}
+     ELSE IF c = "feed" /\ S.feed.kind = "real" THEN {r.feed.owner}
      ELSE {"*"}
+RolesNext(r, S, e, T) ==
+  IF ~(e.kind = "tx" /\ e.res.ok) THEN r
+  ELSE LET c == e.tx.c
+           m == e.tx.m
+           a == e.tx.a
+       IN IF IsVammName(c) /\ c \in DOMAIN r.vamm
+          THEN IF m = "update_owner" THEN [r EXCEPT !.vamm[c].owner = a.owner]
+               ELSE IF m = "update_config"
+               THEN [r EXCEPT !.vamm[c].ifund = IF "ifund" \in DOMAIN a THEN a.ifund ELSE @,
+                              !.vamm[c].engine = IF "engine" \in DOMAIN a THEN a.engine ELSE @]
+               ELSE r
+          ELSE IF c = "engine" /\ m = "update_config" /\ "owner" \in DOMAIN a THEN [r EXCEPT !.engine.owner = a.owner]
+          ELSE IF c = "engine" /\ m = "update_pauser" THEN [r EXCEPT !.engine.pauser = a.pauser]
+          ELSE IF c = "ifund" /\ m = "update_owner" THEN [r EXCEPT !.ifund.owner = a.owner]
+          ELSE IF c = "fpool" /\ m = "update_owner" THEN [r EXCEPT !.fpool.owner = a.owner]
+          ELSE IF c = "feed" /\ m = "update_owner" /\ S.feed.kind = "real" THEN [r EXCEPT !.feed.owner = a.owner]
+          ELSE r
 V_C09(S, e, T, aux) ==
   IF e.kind = "tx"
-  THEN Tag(~e.res.ok \/ "*" \in Roles(S, e) \/ e.tx.s \in Roles(S, e), "C09.role")
+  THEN Tag(~e.res.ok \/ "*" \in Roles(aux, S, e) \/ e.tx.s \in Roles(aux, S, e), "C09.role")
        \cup Tag(e.res.ok \/ Unchanged(e), "C09.unchanged")
   ELSE {}
 A_C09(S, e, T, aux) ==
-  IF e.kind = "tx" /\ ~("*" \in Roles(S, e))
+  IF e.kind = "tx" /\ ~("*" \in Roles(aux, S, e))
   THEN {IF e.res.ok THEN "privileged_ok" ELSE "privileged_denied"}
        \cup (IF e.res.ok /\ e.tx.m \in {"update_owner", "update_pauser"} THEN {"role_transfer"} ELSE {})
        \cup (IF e.res.ok /\ e.tx.m = "update_config" /\ e.tx.c = "engine" /\ "owner" \in DOMAIN e.tx.a THEN {"role_transfer"} ELSE {})
@@ -500,7 +522,11 @@ V_C14(S, e, T, aux) ==
         THEN Tag(e.res.val.is_vamm = IsRegistered(S, e.tx.a.vamm), "C14.isvamm") ELSE {})
   \cup (IF e.kind = "query" /\ e.tx.c = "ifund" /\ e.tx.m = "get_all_vamm" /\ e.res.ok
         THEN Tag(e.res.val.vamm_list = S.ifund.vamms, "C14.allvamm") ELSE {})
-  \cup (IF Op(e, "ifund", "shutdown_vamms") /\ e.tx.s = S.ifund.owner /\ e.fault = 0
+  \* (deployment assumption of the statement: the registered vAMMs name this fund as their insurance fund;
+  \*  a vAMM configured without it cannot be closed by the fund at all -- reading recorded in DESIGN.md 12.3)
+  \cup (IF Op(e, "ifund", "shutdown_vamms") /\ e.tx.s = aux.roles.ifund.owner /\ e.fault = 0
+           /\ \A i \in 1..Len(S.ifund.vamms) :
+                 S.ifund.vamms[i] \in DOMAIN aux.roles.vamm => aux.roles.vamm[S.ifund.vamms[i]].ifund = "ifund"
         THEN Tag(\A i \in 1..Len(S.ifund.vamms) :
                     S.ifund.vamms[i] \in Vs(T) => ~T.vamm[S.ifund.vamms[i]].st.open, "C14.shutdown")
         ELSE {})
@@ -518,25 +544,33 @@ A_C14(S, e, T, aux) ==
 
 (* C15 -- per-block price band *)
 \* the band is defined relative to the end of the *previous* block: such a snapshot must exist
-HasPrevBlock(vm, h) == vm.snaps[1].h < h
-InBand(vm, h, price) ==
-  LET bd == PriceBounds(vm, h) IN ~Bad(bd[1]) /\ ~Bad(price) /\ price <= bd[1] /\ price >= bd[2]
+\* "the price at the end of the previous block" is a ghost: the reserves recorded when the current block
+\* began (aux.open0, set by every block event), not the implementation's own snapshot list -- a defect
+\* that corrupts the snapshots must not move the band the property is judged against.  Before the first
+\* block event of a history (the deployment block) there is no previous block and nothing is judged.
+HasPrevBlockG(aux, v) == aux.open0[v].set
+InBandG(aux, vm, v, price) ==
+  LET o  == aux.open0[v]
+      lp == CDiv(o.x * vm.cfg.D, o.y)
+      up == IF Bad(lp) THEN FAIL ELSE (lp * (vm.cfg.D + vm.cfg.fluct)) \div vm.cfg.D
+      lo == IF Bad(lp) THEN FAIL ELSE (lp * (vm.cfg.D - vm.cfg.fluct)) \div vm.cfg.D
+  IN ~Bad(lp) /\ ~Bad(price) /\ price <= up /\ price >= lo
 V_C15(S, e, T, aux) ==
   (IF EngOp(e, "open_position") /\ e.tx.a.vamm \in Vs(S) /\ e.tx.s \in Traders
       /\ S.vamm[e.tx.a.vamm].cfg.fluct # 0 /\ S.vamm[e.tx.a.vamm].cfg.fluct <= S.vamm[e.tx.a.vamm].cfg.D
-      /\ HasPrevBlock(S.vamm[e.tx.a.vamm], S.blk.h)
+      /\ HasPrevBlockG(aux, e.tx.a.vamm)
    THEN LET v == e.tx.a.vamm
             vm == S.vamm[v]
         IN (IF e.res.ok /\ Held(PosOf(T, v, e.tx.s))
-            THEN Tag(InBand(vm, S.blk.h, Spot(T.vamm[v])), "C15.band")
-                 \cup Tag(InBand(vm, S.blk.h, Spot(vm)), "C15.already")
+            THEN Tag(InBandG(aux, vm, v, Spot(T.vamm[v])), "C15.band")
+                 \cup Tag(InBandG(aux, vm, v, Spot(vm)), "C15.already")
             ELSE {})
    ELSE {})
   \cup
   (IF EngOp(e, "close_position") /\ e.res.ok /\ e.tx.a.vamm \in Vs(S) /\ e.tx.s \in Traders
       /\ S.vamm[e.tx.a.vamm].cfg.fluct # 0 /\ S.vamm[e.tx.a.vamm].cfg.fluct <= S.vamm[e.tx.a.vamm].cfg.D
       /\ S.eng.cfg.plr < S.eng.cfg.D /\ Held(PosOf(S, e.tx.a.vamm, e.tx.s))
-      /\ HasPrevBlock(S.vamm[e.tx.a.vamm], S.blk.h)
+      /\ HasPrevBlockG(aux, e.tx.a.vamm)
    THEN LET v == e.tx.a.vamm
             vm == S.vamm[v]
             p == PosOf(S, v, e.tx.s)
@@ -546,7 +580,7 @@ V_C15(S, e, T, aux) ==
             after == IF Bad(q) THEN FAIL
                      ELSE IF p.dir = "add" THEN CDiv(CSub(vm.st.x, q) * vm.cfg.D, vm.st.y + b)
                      ELSE CDiv((vm.st.x + q) * vm.cfg.D, CSub(vm.st.y, b))
-            keeps == ~Bad(after) /\ (p.dir = "rem" \/ ~Bad(CSub(vm.st.x, q))) /\ InBand(vm, S.blk.h, after)
+            keeps == ~Bad(after) /\ (p.dir = "rem" \/ ~Bad(CSub(vm.st.x, q))) /\ InBandG(aux, vm, v, after)
             whole == ~PosOf(T, v, e.tx.s).exists
             chunk == (b * S.eng.cfg.plr) \div S.eng.cfg.D
             cq == OutputPrice(vm.cfg.D, p.dir, chunk, vm.st.x, vm.st.y)
@@ -562,7 +596,7 @@ V_C15(S, e, T, aux) ==
    ELSE {})
 A_C15(S, e, T, aux) ==
   IF e.kind = "tx" /\ e.tx.c = "engine" /\ "vamm" \in DOMAIN e.tx.a /\ e.tx.a.vamm \in Vs(S) /\ S.vamm[e.tx.a.vamm].cfg.fluct # 0
-     /\ HasPrevBlock(S.vamm[e.tx.a.vamm], S.blk.h)
+     /\ HasPrevBlockG(aux, e.tx.a.vamm)
   THEN (IF e.tx.m = "open_position" /\ e.res.ok THEN {"open_in_band"} ELSE {})
        \cup (IF e.tx.m = "open_position" /\ e.res.err = "other" /\ Len(e.calls) > 1 THEN {"open_rejected_by_swap"} ELSE {})
        \cup (IF e.tx.m = "close_position" /\ e.res.ok /\ S.eng.cfg.plr < S.eng.cfg.D
@@ -726,7 +760,15 @@ A_C20(S, e, T, aux) ==
   ELSE {}
 
 ----------------------------------------------------------------------------
-Violations(id, S, e, T, aux) ==
+\* The oracles that value a position (PnL, margin ratio, funding, closing direction) take its direction
+\* from the SIGN OF ITS SIZE -- the quantity C02 ties to the vAMM -- not from the stored direction field,
+\* which a defect may leave stale (a long valued as a short would otherwise fool the oracle too).
+NormPos(p) == IF p.exists /\ p.size > 0 THEN [p EXCEPT !.dir = "add"]
+              ELSE IF p.exists /\ p.size < 0 THEN [p EXCEPT !.dir = "rem"] ELSE p
+NormW(W) == [W EXCEPT !.eng.pos = [v \in DOMAIN W.eng.pos |-> [t \in DOMAIN W.eng.pos[v] |-> NormPos(W.eng.pos[v][t])]]]
+RawIds == {"C01", "C03", "C09", "C10", "C14", "C17", "C18"}
+
+ViolationsRaw(id, S, e, T, aux) ==
   CASE id = "C01" -> V_C01(S, e, T, aux) [] id = "C02" -> V_C02(S, e, T, aux)
     [] id = "C03" -> V_C03(S, e, T, aux) [] id = "C04" -> V_C04(S, e, T, aux)
     [] id = "C05" -> V_C05(S, e, T, aux) [] id = "C06" -> V_C06(S, e, T, aux)
@@ -737,7 +779,10 @@ Violations(id, S, e, T, aux) ==
     [] id = "C16" -> V_C16(S, e, T, aux) [] id = "C17" -> V_C17(S, e, T, aux)
     [] id = "C18" -> V_C18(S, e, T, aux) [] id = "C20" -> V_C20(S, e, T, aux)
     [] OTHER -> {}
-Antecedents(id, S, e, T, aux) ==
+Violations(id, S, e, T, aux) ==
+  IF id \in RawIds THEN ViolationsRaw(id, S, e, T, aux) ELSE ViolationsRaw(id, NormW(S), e, NormW(T), aux)
+
+AntecedentsRaw(id, S, e, T, aux) ==
   CASE id = "C01" -> A_C01(S, e, T, aux) [] id = "C02" -> A_C02(S, e, T, aux)
     [] id = "C03" -> A_C03(S, e, T, aux) [] id = "C04" -> A_C04(S, e, T, aux)
     [] id = "C05" -> A_C05(S, e, T, aux) [] id = "C06" -> A_C06(S, e, T, aux)
@@ -748,6 +793,9 @@ Antecedents(id, S, e, T, aux) ==
     [] id = "C16" -> A_C16(S, e, T, aux) [] id = "C17" -> A_C17(S, e, T, aux)
     [] id = "C18" -> A_C18(S, e, T, aux) [] id = "C20" -> A_C20(S, e, T, aux)
     [] OTHER -> {}
+Antecedents(id, S, e, T, aux) ==
+  IF id \in RawIds THEN AntecedentsRaw(id, S, e, T, aux) ELSE AntecedentsRaw(id, NormW(S), e, NormW(T), aux)
+
 
 (***************************************************************************)
 (* Ghost state carried along a history.                                    *)
@@ -760,7 +808,9 @@ AuxInit(W) ==
    upd    |-> [v \in Vs(W) |-> [t \in Traders |-> IF W.eng.pos[v][t].exists THEN W.eng.pos[v][t].blk ELSE 0]],
    subs   |-> [k \in DOMAIN W.feed.rounds |->
                  LET rs == W.feed.rounds[k] IN SelectSeq(rs, LAMBDA r : r.id >= 1)],
-   chk    |-> [v \in Vs(W) |-> [t \in Traders |-> W.eng.pos[v][t].lupf]]]
+   chk    |-> [v \in Vs(W) |-> [t \in Traders |-> W.eng.pos[v][t].lupf]],
+   roles  |-> W.given,
+   open0  |-> [v \in Vs(W) |-> [set |-> FALSE, x |-> W.vamm[v].st.x, y |-> W.vamm[v].st.y]]]
 
 \* block of the last successful update of each trader's position on each vAMM: an open / close of
 \* their own (also one that removes the position) or a liquidation naming them
@@ -775,6 +825,10 @@ UpdNext(upd, S, e, T) ==
 
 AuxNext(aux, S, e, T) ==
   [y0     |-> aux.y0,
+   roles  |-> RolesNext(aux.roles, S, e, T),
+   open0  |-> IF e.kind = "block" /\ T.blk.h > S.blk.h
+              THEN [v \in Vs(T) |-> [set |-> TRUE, x |-> S.vamm[v].st.x, y |-> S.vamm[v].st.y]]
+              ELSE aux.open0,
    seen   |-> [v \in Vs(T) |->
                  LET tot == T.vamm[v].st.total
                      x   == T.vamm[v].st.x
